@@ -229,6 +229,11 @@ class ContainerCodec(Codec):
                     if isinstance(k, tuple):
                         msg = "Tuple keys not supported"
                         raise SerDesError(msg)
+                    if not isinstance(k, str):
+                        # JSON object keys are strings: an int/bool/None/float key would be
+                        # written as its string form and come back as a str key.
+                        msg = f"Only string keys are supported in dicts, got {type(k)!r}"
+                        raise SerDesError(msg)
                 return EncodedValue(
                     TypeTag.DICT,
                     {k: self._wrap(v, self.dispatcher) for k, v in obj.items()},
